@@ -144,6 +144,7 @@ class Ctx:
         self.top_contract = None
         self.top_ns = None
         self.ysym = None  # symbolic sequence of yields (generators with yields inside invariant loops)
+        self.guards: List[Any] = []  # reachability guards: (kind, pc, axioms, decisions) at the end of a path
         self.entry_measure = None
 
     # ---- fresh symbols
@@ -245,6 +246,7 @@ class FunctionResult:
         self.entry_axioms = None
         self.normal_paths = 0
         self.raising_paths = 0
+        self.guards: List[Any] = []  # (function tag, kind, pc, axioms, decisions): see runner path guards
 
 
 class Engine:
@@ -444,6 +446,9 @@ class Engine:
         fields = {}
         for n, k in self.all_field_kinds(cls).items():
             fields[n] = ctx.fresh_kind("self." + n, k)
+            # closed world, as for parameters: the dynamic class of an object-valued field (and of the elements of a
+            # sequence-valued one) is one of the repository's instantiable subclasses of its declared class
+            self.assume_wellformed(ctx, fields[n])
         return Obj(cls, True, ref, fields, ctx)
 
     def isinstance_of(self, ctx: Ctx, v, cls) -> Any:
@@ -845,6 +850,8 @@ class Engine:
                 res.limits.append("%s (path %s)" % (e, ctx.taken))
             except RecursionError:
                 res.limits.append("interpreter recursion limit")
+            for g in ctx.guards:
+                res.guards.append((ctx.func,) + tuple(g))
             for ob in ctx.obligations:
                 key = (ob.name, tuple(x.get_id() for x in ob.pc), ob.goal.get_id(), len(ob.axioms))
                 if key in res._seen:
@@ -1052,7 +1059,11 @@ class Engine:
         except PyRaise as pr:
             if res is not None:
                 res.raising_paths += 1
+            n0 = len(ctx.obligations)
             self._check_raise(ctx, contract, ns, pr.exc)
+            if not any(o.kind == "noraise" for o in ctx.obligations[n0:]):
+                # an exception the contract expects: the path that raises it must be reachable (an unexpected one must not)
+                ctx.guards.append(("raise:%s" % pr.exc.clsname, list(ctx.pc), list(ctx.axioms), list(ctx.taken)))
             return
         if isinstance(result, OptV) and not isinstance(result.is_none, bool):
             if not self.feasible(ctx, result.is_none):
@@ -1075,6 +1086,7 @@ class Engine:
                 if label in contract.inv_exempt:
                     continue
                 ctx.oblige("%s/inv#%s" % (short(ctx.func), label), lift_bool(inv), kind="inv")
+        ctx.guards.append(("return", list(ctx.pc), list(ctx.axioms), list(ctx.taken)))
 
     def _owns_state(self, cls) -> bool:
         for c in cls.mro():
